@@ -79,12 +79,46 @@ PROPS = {
 }
 
 
+def c09_oracle(pid, res, driver):
+    """enc_oracle on the ENC stream, plus: frame lengths of the targeted loud blocks (CNT E cases: quotient sums around 2^32
+    with Rice parameter 0, where a wrapped size estimate makes a 512 MiB subframe look smaller than the verbatim one),
+    measured with a counting sink, against the verbatim frame size computed here."""
+    findings = enc_oracle(pid, res, driver)
+    data = res.stream_data.get("CNT")
+    n_checked = 0
+    if data:
+        for c, o in zip(data["cases"], data["impl"].get("debug", [])):
+            t = c.split(" ", 3)
+            if len(t) < 4 or t[2] != "E":
+                continue
+            short = {"case": c, "impl": o[:300]}
+            if o.endswith("panic") or "no-output" in o or o.endswith("hang"):
+                findings.append(dict(short, why="encoding / writing a valid loud block ended in a panic or abort"))
+                continue
+            m = re.search(r"lens=(\S+)", o)
+            if not m:
+                continue
+            pc = parse_enc_case("ENC x " + t[3])
+            n = len(pc["samples"]) // pc["ch"]
+            lens = [] if m.group(1) == "-" else [int(x) for x in m.group(1).split(",")]
+            n_checked += 1
+            for i, L in enumerate(lens):
+                blk = pc["bs"] if (i + 1) * pc["bs"] <= n else n - i * pc["bs"]
+                verb = header_bytes(blk, pc["rate"], i) + (pc["ch"] * (8 + pc["bps"] * blk) + 7) // 8 + 2
+                if L > verb + 2 * pc["ch"]:
+                    findings.append(dict(short, why="frame %d has %d bytes > verbatim %d + 2 per channel" % (i, L, verb)))
+                    break
+    res.extra["loud_blocks_checked"] = n_checked
+    return findings
+
+
 PROPS["C09"] = {
     "coq": "theories/Props/C09.v",
     "theorems": ["C09_subframe_le_verbatim", "C09_frame_body_le_verbatim", "C09_frame_bits_bound", "C09_frame_bytes_le_verbatim"],
-    "streams": "ENC",
-    "rule": "ENC",
-    "oracle": lambda pid, res, driver: enc_oracle(pid, res, driver),
+    "streams": "ENC+CNT0",
+    "rule": "ENC+CNT0",
+    "always_cases": lambda hb: {"CNT": cnt_targeted_cases(hb)},
+    "oracle": c09_oracle,
     "assumptions": ["the entropy estimator and the LPC estimator are arbitrary functions (oracles) in the theorems",
                     "frame byte length = frame_count_bits/8 is property C08",
                     "hand-written model of coding.rs tied by whole-stream byte correspondence (ENC)"],
@@ -226,7 +260,7 @@ PROPS["C13"] = {
     "streams": [RICE_STREAM],
     "rule": "RICE: unit-level find_partitioned_rice_parameter on residual signals (zeros, uniform at scales 1..2^27, sparse "
             "outliers to 2^30, +-i32::MAX, per-64-sample scale changes, log-uniform magnitudes, alternating), lengths 64..4608 "
-            "incl. non-powers of two, warm-up 0..32, every maximum parameter class; PrcBitTable from_errors/merge/minimizer on "
+            "incl. non-powers of two and (1 in 16) long blocks 8192..32640 whose finest partition order is 7..9, warm-up 0..32, every maximum parameter class; PrcBitTable from_errors/merge/minimizer on "
             "folded values incl. runs >= 2^28 (saturation). Non-trivial = chosen order >= 1 or a table op.",
     "oracle": rice_oracle,
     "assumptions": ["optimality is stated over the finest partitions of the folded residual (finest_parts); its identification with "
@@ -239,7 +273,7 @@ DLV_STREAM = {"name": "DLV", "quick": 400, "thorough": 6000, "profiles": ["debug
               "nontrivial": lambda c, o: nontrivial_enc(c, o) and not c.split(" ")[2].endswith("s"), "memlimit_kb": 8000000}
 DLV_RULE = (" DLV: the ENC generator with delivery variants: integer vs packed-byte fill, with/without length hint, "
             "single-threaded vs multi-threaded with 1..16 workers from the configuration or from FLACENC_WORKERS; the "
-            "model (which has no notion of delivery or threads) must produce the same bytes. Non-trivial = multi-threaded "
+            "model (which has no notion of delivery or threads) must produce the same bytes; two cases in every 200 are one LONG input (2049..2348 frames of 32 samples plus a short frame, so frame numbers cross the 1-/2-/3-byte classes), once single- and once multi-threaded. Non-trivial = multi-threaded "
             "and at least one Fixed/LPC subframe.")
 
 PROPS["C01"] = {
@@ -630,7 +664,7 @@ def cmp3(line):
 PARSE_STREAM = {"name": "PARSE", "quick": 6000, "thorough": 150000, "profiles": ["debug"], "cmp": cmp3,
                 "nontrivial": lambda c, o: c.split(" ")[3] in ("flip", "burst", "trunc"),
                 "thorough_env": {"VERIF_PARSE_EXHAUSTIVE": "1"}}
-PARSE_RULE = ("PARSE: small emitted streams (1-3 channels, 8/16/24 bits, blocks 32..128, 1-2 frames, every subframe kind via random "
+PARSE_RULE = ("PARSE: small emitted streams (1-8 channels i.e. every channel assignment, 8/12/16/20/24 bits, blocks 32..576, 1-2 frames, every subframe kind via random "
               "verified configurations) and mutants of them: single-bit flips at random positions inside the frames (EVERY bit position "
               "of every frame in the thorough tier), 2..8-bit bursts at random positions, truncation at a random byte, single-bit flips "
               "in the metadata, random byte strings with and without the fLaC marker, and frames whose header was REWRITTEN with both CRCs made consistent again (hdr: every block-size / sample-rate / channel / sample-size code incl. the reserved ones, reserved bits, blocking bit, and coded numbers at the boundaries and inside every length class up to 2^36-1). Observable: verdict (ok/err/panic), re-serialised "
@@ -723,13 +757,35 @@ def par_oracle(pid, res, driver):
     res.extra["traces_validated_against_impl"] = stats["traces_valid"]
     if pid == "C05":
         findings += [f for f in enc_oracle("C01", res, driver, "DLV")]
+        # the same input delivered single-threaded and multi-threaded in two DLV cases: the bytes must be identical
+        dlv = res.stream_data.get("DLV")
+        groups = {}
+        if dlv:
+            for c, o in zip(dlv["cases"], dlv["impl"].get("debug", [])):
+                t = c.split(" | ")[0].split(" ", 3)
+                ot = o.split(" ")
+                if len(t) == 4 and len(ot) > 2 and ot[1] == "ok":
+                    groups.setdefault(t[3], []).append((t[2], c, o, ot[-1]))
+        pairs = 0
+        for key, lst in groups.items():
+            sts = [x for x in lst if x[0].endswith("s")]
+            mts = [x for x in lst if not x[0].endswith("s")]
+            if sts and mts:
+                pairs += 1
+                for m in mts:
+                    if m[3] != sts[0][3]:
+                        i = next((k for k in range(min(len(m[3]), len(sts[0][3]))) if m[3][k] != sts[0][3][k]), -1)
+                        findings.append({"case": m[1], "cases": [sts[0][1], m[1]], "impl": m[2][:300], "impl_single_thread": sts[0][2][:300],
+                                         "why": "the multi-threaded stream differs from the single-threaded stream of the same input (first difference at byte %d)" % (i // 2)})
+                        break
+        res.extra["dlv_same_input_pairs"] = pairs
     return findings
 
 
 PAR_STREAM = {"name": "PAR", "quick": 320, "thorough": 6000, "profiles": ["debug"], "model_from_impl": par_model_input,
               "cmp": par_cmp_impl, "cmp_model": par_cmp_model, "shards": 6, "timeout": 2400,
               "nontrivial": lambda c, o: o.count(",P") >= 3}
-PAR_RULE = ("PAR: multi-threaded encoding of 0..9 blocks (+ optional short tail) with 1..4 workers under seeded schedule perturbation "
+PAR_RULE = ("PAR: multi-threaded encoding of 0..9 blocks (+ optional short tail) with 1..4 workers (1 case in 32: 17, 33, 40 or 64 workers) under seeded schedule perturbation "
             "(yield / sleep 50-450us / spin at every hook point of par.rs, derived from the case seed), optionally a read error at read "
             "index 0..blocks+1 and/or out-of-range samples in 1-2 blocks. Observables: result (bytes or error kind) vs the single-threaded "
             "run on the same source, threads alive after return (/proc/self/task), timeout 20 s, and the event log turned into per-thread "
@@ -806,7 +862,7 @@ API_RULE = ("API: boundary and wrap-around grid for every argument of StreamInfo
             "(FrameBuf, Context)::fill_le_bytes, encode_fixed_size_frame and encode_with_fixed_block_size in both modes: 0, min-1, min, "
             "max, max+1, 2^8+k, 2^16+k, 2^32+k, usize::MAX for rate / channels / width / block size / frame number; fills of exactly, one "
             "more than and a channel more than the capacity; byte widths 0..6 against the declared width; lengths off by one; an "
-            "out-of-range sample at a random position (far out, max+1, min-1, i32::MIN, i32::MAX) and the valid extremes max / min of the width. "
+            "out-of-range sample at a random position, or in EVERY block of a stream of up to 31 blocks (more failing blocks than the two workers have frame buffers), (far out, max+1, min-1, i32::MIN, i32::MAX) and the valid extremes max / min of the width. "
             "Verdict ok / err / panic / hang (15 s). Non-trivial = a rejection.")
 
 PROPS["C17"] = {
@@ -857,7 +913,7 @@ CTOR_RULE = ("CTOR: every public constructor (Residual, QuantizedParameters, Con
              "StreamInfo, MetadataBlockData::new_unknown) on half consistent, half deliberately inconsistent arguments: parameter count "
              "off by one, parameters 15/16/30/31/32/255, partition order 15/16/17/64 or disagreeing with the count, block size 0 / +1 / "
              "65536 / 2^40 / 2^62 / usize::MAX, list lengths that disagree, warm-up longer than a partition or than the block, non-zero "
-             "warm-up quotient, remainder 2^15, quotients 65535/65536/100000, precision 0/16/17/32/64/2^20, shift -128..127, coefficient "
+             "warm-up quotient (1, k*2^(32-p0), 2^31) or remainder, remainder 2^15, quotients 65535/65536/100000, precision 0/16/17/32/64/2^20, shift -128..127, coefficient "
              "count off by one, coefficients one beyond the precision, order 0/25/32/33/100, widths 0/1/7/10/26..33/255/272/264/2^32+16, "
              "samples one beyond the width or i32::MIN/MAX, 0/32767/32768/40000/65536 verbatim samples, header block sizes over every code "
              "class, 0, 32768, 65535, 65536, 2^32+64, channel counts 0/9/16/255, rates 0/655350/655351/10^6/2^32/2^32+44100/usize::MAX, "
@@ -1182,6 +1238,8 @@ def run_check(pid, spec, tier, seed, replay):
         spec["streams"] = [st, st2]
     if spec.get("streams") == "ENC+CNT":
         spec["streams"] = [dict(ENC_STREAM), dict(CNT_STREAM)]
+    if spec.get("streams") == "ENC+CNT0":
+        spec["streams"] = [dict(ENC_STREAM), dict(CNT_STREAM, quick=0, thorough=0, profiles=["debug"])]
     if spec.get("streams") == "ENC+DLV":
         spec["streams"] = [dict(ENC_STREAM), dict(DLV_STREAM)]
     if spec.get("streams") == "SRC+DLV":
@@ -1201,8 +1259,12 @@ def run_check(pid, spec, tier, seed, replay):
         spec["rule"] = DLV_RULE
     if spec.get("rule") == "ENC":
         spec["rule"] = ENC_RULE
+    if spec.get("rule") == "ENC+CNT0":
+        spec["rule"] = ENC_RULE + (" CNT (targeted, every run): 8 loud 24-bit blocks (8192..32767 samples, 1-2 channels) encoded with Rice parameter 0 and "
+                                   "the order-0 fixed predictor only, whose quotient sums lie just above / below 2^32; frame lengths measured with a "
+                                   "counting sink (implementation only; the model is not consulted) against the verbatim frame size.")
     if spec.get("rule") == "ENC+CNT":
-        spec["rule"] = ENC_RULE + " CNT: directly constructed residuals (partition order 0..4, partition sizes 1..65, parameters 0..14, up to 3 quotients of 2^28..2^32-1 so sums cross 2^32; written through a counting sink) and frame headers (every block-size / sample-rate code class, frame numbers to 2^31-1, start samples to 2^36-1, half of them drawn uniformly from one length class of the coded number, through both MemSink types), and streams with 0..4 further metadata blocks of 0..500 payload bytes (kind M). Non-trivial = residual > 200 bits or number > 127."
+        spec["rule"] = ENC_RULE + " CNT: directly constructed residuals (partition order 0..4, partition sizes 1..65, parameters 0..14, up to 3 quotients of 2^28..2^32-1 so sums cross 2^32; 1 in 10 with a non-empty warm-up slot, which Residual::new must refuse; written through a counting sink) and frame headers (every block-size / sample-rate code class, frame numbers to 2^31-1, start samples to 2^36-1, half of them drawn uniformly from one length class of the coded number, through both MemSink types), and streams with 0..4 further metadata blocks of 0..500 payload bytes (kind M). Non-trivial = residual > 200 bits or number > 127."
     res = Result(pid)
     res.rule = spec.get("rule", "")
     res.assumptions = spec.get("assumptions", [])
@@ -1219,6 +1281,16 @@ def run_check(pid, spec, tier, seed, replay):
             res.extra["targeted_cases"] = {k: len(v) for k, v in res.extra_cases.items()}
         except Exception as e:   # the search is best effort
             res.extra["targeted_cases_error"] = str(e)[:300]
+    if not replay and spec.get("always_cases"):
+        try:
+            extra = spec["always_cases"](dbg)
+            merged = dict(getattr(res, "extra_cases", {}) or {})
+            for k, v in extra.items():
+                merged[k] = merged.get(k, []) + v
+            res.extra_cases = merged
+            res.extra["always_targeted_cases"] = {k: len(v) for k, v in extra.items()}
+        except Exception as e:
+            res.extra["always_targeted_cases_error"] = str(e)[:300]
     if tier == "thorough" and not replay and spec.get("thorough_cases"):
         # the thorough tier always runs the targeted families (in quick they run only after a break)
         try:
@@ -1236,7 +1308,7 @@ def run_check(pid, spec, tier, seed, replay):
     replay_cases = None
     if replay:
         rp = json.load(open(replay))
-        replay_cases = [rp["case"]] if "case" in rp else rp.get("cases")
+        replay_cases = rp.get("cases") or [rp["case"]]
     disagreements = []
     try:
         disagreements = run_streams(pid, spec, tier, seed, res, replay_cases)
